@@ -47,7 +47,7 @@ type Case struct {
 	Size     int               `json:"size,omitempty"`
 }
 
-const rule = "cases = (target minifier or exported helper, arbitrary byte string: repository snippets mutated/truncated/spliced with hostile constants, random bytes, invalid UTF-8, NUL, deep-nesting and huge-token families; all option combinations incl. extreme precisions, arbitrary versions, odd template delimiters; entry Minify/Bytes/String); oracle = the call returns (panic, runtime fatal error, hang beyond the guard are violations), Bytes/String return data byte-equal to a pristine copy on error and leave the caller's slice untouched; time: scaling relation t(4n)/t(n) on generated families; non-trivial = an error was returned or the output differs from the input; distinct by hash of the whole case"
+const rule = "cases = (target minifier or exported helper, arbitrary byte string: repository snippets mutated/truncated/spliced with hostile constants, JS programs from an expression grammar with redundant parentheses and string/template literals over quotes, $ { }, escapes and line continuations, random bytes, invalid UTF-8, NUL, deep-nesting and huge-token families; all option combinations incl. extreme precisions, arbitrary versions, odd template delimiters; entry Minify/Bytes/String); oracle = the call returns (panic, runtime fatal error, hang beyond the guard are violations), Bytes/String return data byte-equal to a pristine copy on error and leave the caller's slice untouched; time: scaling relation t(4n)/t(n) on generated families; non-trivial = an error was returned or the output differs from the input; distinct by hash of the whole case"
 
 func (c *Case) bytes() []byte {
 	if c.InputH != "" {
@@ -187,6 +187,15 @@ func genInput(t *rapid.T, kind string) []byte {
 		base = rapid.SampledFrom(seeds.Kinds).Draw(t, "basekind")
 	}
 	switch rapid.IntRange(0, 10).Draw(t, "src") {
+	case 9:
+		if kind == "js" {
+			return jsSoup(t)
+		}
+		if kind == "html" && rapid.Bool().Draw(t, "soupinhtml") {
+			return []byte("<p onclick=\"" + strings.ReplaceAll(string(jsSoup(t)), "\"", "&quot;") + "\">x</p><script>" + string(jsSoup(t)) + "</script>")
+		}
+		other := seeds.Doc(t, rapid.SampledFrom(seeds.Kinds).Draw(t, "splicekind"))
+		return []byte(mutate.Mutate(t, seeds.Doc(t, base), other, 4))
 	case 10:
 		if b := boundaryDoc(t, kind); b != nil {
 			return b
